@@ -11,9 +11,11 @@ META = {
     "bounds": "B0: the public wrapper coap_session_reference() against the coap_defines.h regenerated from the current "
               "CMakeLists.txt (and against COAP_THREAD_SAFE=1 as autotools defines it); S1: every lock/callback macro form and the "
               "real event call site coap_handle_event_lkd, one outermost API call with a callback that re-enters the API 1..2 "
-              "times; B1: two threads (CBMC ASYNC), one locked read-modify-write each, optional event callback, all interleavings.",
+              "times; B1: two threads (CBMC ASYNC), one locked read-modify-write each, optional event callback, all interleavings (mutual exclusion, "
+              "completion, no self-deadlock, no foreign unlock); S3: coap_io_process_with_fds_lkd around epoll_wait for every wait result (events, "
+              "timeout, EINTR, other error, full event array up to 3 rounds): lock free while sleeping, held whenever library state is touched and at return.",
     "outside": "data-race freedom of all library state behind the lock for 2..8 threads (CBMC's concurrency encoding rejects "
-               "pointer-rich code); deadlocks involving select/epoll; wrappers other than the representative one",
+               "pointer-rich code); the select() variant of the I/O loop; wrappers other than the representative one",
     "assumptions": ["pthread_mutex_lock/unlock/init and pthread_self are harness models on a ghost owner word (lock = atomic wait-until-free-then-take)",
                     "coap_started = 1 (coap_startup() was called)"],
 }
@@ -67,4 +69,12 @@ def jobs():
                 j2.tier = "quick"
                 j2.kf = None
                 js.append(j2)
+    # S3: the unlock / re-lock around the blocking wait of the I/O loop (thread-safe configuration)
+    js.append(Job("S3-blocking-wait@autotools", "C13/c13w.c", "c13_s3_blocking_wait", ["coap_io.c", "coap_threadsafe.c"], extra_src=EXTRA, cfg_patch=CFGS["autotools"],
+                  defines=["ENV_LOG_QUIET"], remove_bodies=["coap_io_prepare_epoll_lkd", "coap_io_do_epoll_lkd"], unwind=6, group="S3", native_replay=False, timeout=600,
+                  desc="coap_io_process_with_fds_lkd: lock released during epoll_wait and held again on every outcome (events, timeout, EINTR, error, full array)",
+                  bounds={"epoll_wait result": "-1 (EINTR or other) .. COAP_MAX_EPOLL_EVENTS", "rounds": "<= 3"}))
+    js.append(Job("S3-blocking-wait@cmake", "C13/c13w.c", "c13_s3_blocking_wait", ["coap_io.c", "coap_threadsafe.c"], extra_src=EXTRA, cfg_patch=None,
+                  defines=["ENV_LOG_QUIET"], remove_bodies=["coap_io_prepare_epoll_lkd", "coap_io_do_epoll_lkd"], unwind=6, group="S3", native_replay=False, timeout=600,
+                  desc="same, configuration generated by CMake", bounds={"rounds": "<= 3"}))
     return js
